@@ -66,6 +66,21 @@ def main():
     roots = choice.frontier(drv, 2, lambda i: grid)
     tot = sum(choice.explore(drv, root=r, float_policy=lambda i: grid).executions for r in roots)
     expect(len(roots) == 12 and tot == 96, f"frontier {len(roots)} {tot}")
+    # 5b. a re-seed by the code under exploration: later draws of THAT generator carry no probability (run.world)
+    leaves = []
+
+    def drv2(run):
+        a = random.randrange(2)
+        random.seed(3)
+        b = random.randrange(3) if a else None
+        c = int(np.random.randint(2))
+        return a, b, c
+    st = choice.explore(drv2, on_leaf=lambda run, res: leaves.append((run.world, (res, run.weight))), weighted=True)
+    expect(st.executions == 2 + 6, f"reseed leaves {st.executions}")
+    groups = choice.world_groups(leaves)
+    expect(len(groups) == 3 and all(sum(w for _, w in m) == 1 for m in groups.values()),
+           f"world groups {[(k, sum(w for _, w in m)) for k, m in groups.items()]}")
+    expect(scripted.ORIG['random.getstate']() == scripted.ORIG['random.getstate'](), "getstate")
     # 6. ixai is importable from the repository working tree and binds the dispatchers
     import ixai
     import os
